@@ -5,6 +5,8 @@
 mod rng;
 #[path = "../../harness/src/util.rs"]
 mod util;
+#[path = "../../harness/src/tw.rs"]
+mod tw;
 #[path = "../../harness/src/reg.rs"]
 mod reg;
 #[path = "../../harness/src/obj.rs"]
